@@ -266,6 +266,7 @@ type FnRun struct {
 	noInvLoops []string
 	modelsUsed map[string]bool
 	calleesByContract map[string]bool
+	calleeKeys map[string]bool // "pkgname:relname" of functions called by contract
 	failKeysDone bool
 	notes map[string]bool
 	loopDone map[*ssa.BasicBlock]bool
